@@ -1030,7 +1030,7 @@ func TestCheck(t *testing.T) {
 	}
 	var stop atomic.Bool
 	// 1. latch histories
-	nLatch := r.Pick(120000, 20000000)
+	nLatch := r.Pick(120000, 1500000)
 	var lt struct{ iters, loops, bumps, hard, hardRuns, multi atomic.Int64 }
 	vh.Parallel(nLatch, workers, func(i int) {
 		if stop.Load() {
@@ -1073,7 +1073,7 @@ func TestCheck(t *testing.T) {
 
 	lap("latch")
 	// 2. stepped bounded-ring scenarios (bubble)
-	nStep := r.Pick(3000, 300000)
+	nStep := r.Pick(3000, 100000)
 	vh.Parallel(nStep, workers, func(i int) {
 		if stop.Load() {
 			return
@@ -1118,7 +1118,7 @@ func TestCheck(t *testing.T) {
 
 	lap("ring_stepped")
 	// 3. free-running ring histories
-	nRing := r.Pick(14000, 1500000)
+	nRing := r.Pick(14000, 400000)
 	vh.Parallel(nRing, workers, func(i int) {
 		if stop.Load() {
 			return
